@@ -4,12 +4,19 @@ The schedule quantifier is decided by def-use: the slot a result is written to i
 future that produced it, whatever order as_completed yields (S1); every future is awaited through .result()
 outside any handler (S2); the sequential branch appends in input order (S3); the worker is the single-file
 function (S4); executor lifetime (S5); list-preserving result (S6).
+
+The rules look at the pairing / ordering, not at the statement shape: the (index, file) pairs may be produced by a `for`
+statement that stores map[future] = index or by a dict comprehension {submit(...): index for index, file in enumerate(files)};
+the sequential pass may be an append loop or a list comprehension; a value (the number of files, the result of a future) may
+be bound to a local first.  S5 and S6 are decided per path (c06.sym_paths): which object receives .submit and whether it is
+among the open context managers; which list object each `return` hands to SignatureList - so guard clauses with early
+return, chained assignments, helper expansion and conditional expressions all reduce to the same question.
 """
 import ast
 
-from ..astutil import (u, atoms, guard_map, path_atoms, stmts_in, calls_in, callee, callee_attr, reaching_def, def_value,
+from ..astutil import (u, guard_map, path_atoms, stmts_in, calls_in, callee, callee_attr, reaching_def, def_value,
                        PARAM, AMBIGUOUS, raised_name, assigns_to, get_arg, block_path, find_parent_map, is_none)
-from ..report import Undecided
+from .c06 import sym_paths, returning, subst, is_unknown, _is_simple
 
 FN = 'gambit.sigs.calc.calc_file_signatures'
 ORDER_PRESERVING_ITER = {'gambit.util.progress.iter_progress'}
@@ -23,12 +30,24 @@ def check(ctx):
 def declare_rules(rep):
     rep.rule('S1', 'result slot = submit-time index: map[future] = enumerate index at the submit site; store sigs[map[f]] = f.result(); pre-sized list; no positional collection')
     rep.rule('S2', 'every future is awaited via .result() in a loop over as_completed(<the same map>); no enclosing handler')
-    rep.rule('S3', 'sequential branch appends calc_file_signature(kspec, file) in iteration order of files')
+    rep.rule('S3', 'sequential branch collects calc_file_signature(kspec, file) in iteration order of files (append loop or list comprehension, no filter)')
     rep.rule('S4', 'submitted callable is calc_file_signature with (kspec, file)')
-    rep.rule('S5', 'an executor created here is the with-context; a caller-supplied one is wrapped in nullcontext(); unknown concurrency raises')
-    rep.rule('S6', 'result is SignatureList(sigs, kspec)')
+    rep.rule('S5', 'per path: an executor created here is among the open with-contexts at the submit site (shut down), a caller-supplied one never is; unknown concurrency raises')
+    rep.rule('S6', 'every return hands the list filled on that path (sequential or concurrent), unmodified, to SignatureList(..., kspec); no other return')
     rep.trusted += ['concurrent.futures: Future.result() re-raises the worker exception; as_completed yields each given future exactly once',
                     'iter_progress / ProgressIterator yield the wrapped items unchanged and in order (checked under C08-A7)']
+
+
+def unfold(fn, e, at):
+    """A local that names one side-effect free expression (assigned exactly once, reaching `at`) stands for that expression."""
+    seen = 0
+    while isinstance(e, ast.Name) and seen < 5:
+        d = reaching_def(fn, e.id, at)
+        v = def_value(d) if d not in (None, PARAM, AMBIGUOUS) else None
+        if v is None or len(assigns_to(fn, e.id)) != 1 or not _is_simple(v):
+            break
+        e, at, seen = v, d, seen + 1
+    return e
 
 
 def core(ctx):
@@ -48,44 +67,71 @@ def core(ctx):
     rep.require(len(submits) == 1, f'{FN}: expected exactly one submit site, found {len(submits)}')
     sub = submits[0]
     rep.call_sites += 1
-    sub_stmt = next(s for s in stmts_in(fn.body) if isinstance(s, (ast.Assign, ast.Expr)) and any(x is sub for x in ast.walk(s)))
+    sub_stmt = next((s for s in stmts_in(fn.body) if isinstance(s, (ast.Assign, ast.Expr)) and any(x is sub for x in ast.walk(s))), None)
+    rep.require(sub_stmt is not None, f'{FN}: the submit call is not part of an assignment or expression statement')
     bp = block_path(fn, sub_stmt)
-    sub_loop = next((o for (_, _, o) in reversed(bp) if isinstance(o, ast.For)), None)
-    rep.require(sub_loop is not None, f'{FN}: submit is not inside a for loop')
-    it = sub_loop.iter
+    # the iteration that drives the submissions: the innermost enclosing `for` statement, or the generator of a dict
+    # comprehension {submit(...): index for index, file in enumerate(files)} - either way one (index, file) pair per task
+    drive = pm.get(sub)
+    while drive is not None and not isinstance(drive, (ast.For, ast.DictComp, ast.ListComp, ast.SetComp, ast.GeneratorExp, ast.Lambda, ast.stmt)):
+        drive = pm.get(drive)
+    if isinstance(drive, ast.DictComp):
+        rep.require(len(drive.generators) == 1 and not drive.generators[0].is_async, f'{FN}: submit inside a dict comprehension with several / async generators')
+        sub_loop = None
+        sub_scope = sub_stmt
+        it, tgt = drive.generators[0].iter, drive.generators[0].target
+    else:
+        sub_loop = next((o for (_, _, o) in reversed(bp) if isinstance(o, ast.For)), None)
+        rep.require(sub_loop is not None and drive is sub_stmt, f'{FN}: submit is neither inside a for loop nor the key of a dict comprehension ({type(drive).__name__})')
+        sub_scope = sub_loop
+        it, tgt = sub_loop.iter, sub_loop.target
     en_ok = isinstance(it, ast.Call) and u(it.func) == 'enumerate' and [u(a) for a in it.args] == [files] and not it.keywords \
-        and isinstance(sub_loop.target, ast.Tuple) and len(sub_loop.target.elts) == 2 and all(isinstance(e, ast.Name) for e in sub_loop.target.elts)
-    rep.add('S1', fi.site(sub_loop), 'tasks are submitted in one pass over enumerate(files)', en_ok, expected=f'for i, file in enumerate({files})', found=u(it),
+        and isinstance(tgt, ast.Tuple) and len(tgt.elts) == 2 and all(isinstance(e, ast.Name) for e in tgt.elts)
+    rep.add('S1', fi.site(sub_scope), 'tasks are submitted in one pass over enumerate(files)', en_ok, expected=f'for i, file in enumerate({files})', found=u(it),
             stmt='submit loop')
-    rep.require(en_ok, f'{FN}: submit loop is not `for i, f in enumerate({files})`')
-    ivar, fvar = (e.id for e in sub_loop.target.elts)
+    rep.require(en_ok, f'{FN}: submissions are not driven by `for i, f in enumerate({files})`')
+    ivar, fvar = (e.id for e in tgt.elts)
     wk = m.resolve(fi.module, sub.args[0]) if sub.args else None
     rep.add('S4', fi.site(sub), 'the worker is the single-file function with the same parameters and this file',
             wk == 'gambit.sigs.calc.calc_file_signature' and [u(a) for a in sub.args[1:]] == [kspec, fvar] and not sub.keywords,
             expected=f'submit(calc_file_signature, {kspec}, {fvar})', found=u(sub), stmt='submit call')
-    # the future returned by submit
-    if isinstance(sub_stmt, ast.Assign) and isinstance(sub_stmt.targets[0], ast.Name) and sub_stmt.value is sub:
-        fut = sub_stmt.targets[0].id
-        map_stores = [s for s in stmts_in(sub_loop.body) if isinstance(s, ast.Assign) and isinstance(s.targets[0], ast.Subscript)
-                      and u(s.targets[0].slice) == fut]
-    else:
+    if sub_loop is None:
+        # comprehension form: the pairing future -> index is the key/value pair itself; the map is born complete
+        rep.require(drive.key is sub, f'{FN}: the future is not the key of the comprehension that submits it: {u(drive)[:80]}')
+        rep.require(isinstance(sub_stmt, ast.Assign) and sub_stmt.value is drive and len(sub_stmt.targets) == 1 and isinstance(sub_stmt.targets[0], ast.Name),
+                    f'{FN}: the future->index comprehension is not bound to a local: {u(sub_stmt)[:80]}')
         fut = None
-        map_stores = [sub_stmt] if isinstance(sub_stmt, ast.Assign) and isinstance(sub_stmt.targets[0], ast.Subscript) and \
-            sub_stmt.targets[0].slice is sub else []
-    rep.require(len(map_stores) == 1, f'{FN}: expected one `map[future] = index` store next to the submit, found {len(map_stores)}')
-    ms = map_stores[0]
-    mapname = u(ms.targets[0].value)
-    same_block = ms in sub_loop.body and sub_stmt in sub_loop.body
-    rep.add('S1', fi.site(ms), 'the future is recorded unconditionally in the iteration that submitted it, with that iteration\'s index',
-            same_block and u(ms.value) == ivar, expected=f'{mapname}[future] = {ivar}', found=u(ms), stmt='map store')
-    rebinds = [s for s in stmts_in(sub_loop.body) if s is not ms and any(isinstance(t, ast.Name) and t.id in (ivar, fut) for t in
-               [x for st in [s] for x in (st.targets if isinstance(st, ast.Assign) else [getattr(st, 'target', None)]) if x is not None])
-               and s is not sub_stmt]
-    rep.add('S1', fi.site(sub_loop), 'neither the index nor the future variable is rebound inside the submit loop', not rebinds, expected='none',
-            found=[u(s) for s in rebinds], stmt='submit loop rebinding')
-    mdef = [s for s in assigns_to(fn, mapname) if s is not ms]
-    okm = len(mdef) == 1 and isinstance(def_value(mdef[0]), (ast.Call, ast.Dict)) and u(def_value(mdef[0])) in ('dict()', '{}')
-    rep.add('S1', fi.site(mdef[0] if mdef else ms), 'the future->index map starts empty', okm, expected='dict()', found=[u(s) for s in mdef], stmt='map init')
+        mapname = sub_stmt.targets[0].id
+        rep.add('S1', fi.site(drive), 'the future is recorded unconditionally in the iteration that submitted it, with that iteration\'s index',
+                u(drive.value) == ivar and not drive.generators[0].ifs, expected=f'{{submit(...): {ivar} for {ivar}, {fvar} in enumerate({files})}}', found=u(drive), stmt='map store')
+        walrus = [x for x in ast.walk(drive) if isinstance(x, ast.NamedExpr)]
+        rep.add('S1', fi.site(drive), 'neither the index nor the future variable is rebound inside the submit loop', not walrus, expected='none', found=[u(x) for x in walrus], stmt='submit loop rebinding')
+        mdef = [x for x in assigns_to(fn, mapname) if x is not sub_stmt]
+        rep.add('S1', fi.site(sub_stmt), 'the future->index map starts empty', not mdef, expected='built by the comprehension only', found=[u(x) for x in mdef], stmt='map init')
+    else:
+        # the future returned by submit
+        if isinstance(sub_stmt, ast.Assign) and isinstance(sub_stmt.targets[0], ast.Name) and sub_stmt.value is sub:
+            fut = sub_stmt.targets[0].id
+            map_stores = [s for s in stmts_in(sub_loop.body) if isinstance(s, ast.Assign) and isinstance(s.targets[0], ast.Subscript)
+                          and u(s.targets[0].slice) == fut]
+        else:
+            fut = None
+            map_stores = [sub_stmt] if isinstance(sub_stmt, ast.Assign) and isinstance(sub_stmt.targets[0], ast.Subscript) and \
+                sub_stmt.targets[0].slice is sub else []
+        rep.require(len(map_stores) == 1, f'{FN}: expected one `map[future] = index` store next to the submit, found {len(map_stores)}')
+        ms = map_stores[0]
+        mapname = u(ms.targets[0].value)
+        same_block = ms in sub_loop.body and sub_stmt in sub_loop.body
+        rep.add('S1', fi.site(ms), 'the future is recorded unconditionally in the iteration that submitted it, with that iteration\'s index',
+                same_block and u(ms.value) == ivar, expected=f'{mapname}[future] = {ivar}', found=u(ms), stmt='map store')
+        rebinds = [s for s in stmts_in(sub_loop.body) if s is not ms and any(isinstance(t, ast.Name) and t.id in (ivar, fut) for t in
+                   [x for st in [s] for x in (st.targets if isinstance(st, ast.Assign) else [getattr(st, 'target', None)]) if x is not None])
+                   and s is not sub_stmt]
+        rep.add('S1', fi.site(sub_loop), 'neither the index nor the future variable is rebound inside the submit loop', not rebinds, expected='none',
+                found=[u(s) for s in rebinds], stmt='submit loop rebinding')
+        mdef = [s for s in assigns_to(fn, mapname) if s is not ms]
+        okm = len(mdef) == 1 and isinstance(def_value(mdef[0]), (ast.Call, ast.Dict)) and u(def_value(mdef[0])) in ('dict()', '{}')
+        rep.add('S1', fi.site(mdef[0] if mdef else ms), 'the future->index map starts empty', okm, expected='dict()', found=[u(s) for s in mdef], stmt='map init')
 
     # ------------------------------------------------------------------ S1 / S2: completion loop
     acs = [c for c in calls_in(fn) if (m.resolve_call(fi, c) or callee(c) or '').endswith('as_completed')]
@@ -115,22 +161,33 @@ def core(ctx):
     ok_store = False
     found = u(res_stmt)
     sigs = None
-    if isinstance(res_stmt, ast.Assign) and len(res_stmt.targets) == 1 and isinstance(res_stmt.targets[0], ast.Subscript) and res_stmt.value is res:
-        tgt = res_stmt.targets[0]
+    store_stmt = res_stmt
+    if isinstance(res_stmt, ast.Assign) and len(res_stmt.targets) == 1 and isinstance(res_stmt.targets[0], ast.Name) and res_stmt.value is res:
+        # the result is bound to a local first: the store is the statement that puts that local into a slot
+        held = res_stmt.targets[0].id
+        puts = [s for s in stmts_in(cloop.body) if isinstance(s, ast.Assign) and len(s.targets) == 1 and isinstance(s.targets[0], ast.Subscript) and isinstance(s.value, ast.Name)
+                and s.value.id == held and reaching_def(fn, held, s) is res_stmt]
+        if len(puts) == 1:
+            store_stmt = puts[0]
+            found = f'{u(res_stmt)}; {u(store_stmt)}'
+            sbp_ = block_path(fn, store_stmt)
+            cond = [o for (_, _, o) in sbp_[[i for i, (_, _, o) in enumerate(sbp_) if o is cloop][0] + 1:] if isinstance(o, (ast.If, ast.Try, ast.While, ast.For))]
+            rep.add('S2', fi.site(store_stmt), 'every result taken is stored (unconditional in the loop body)', not cond, expected='unconditional', found=[type(o).__name__ for o in cond], stmt='store unconditional')
+    if isinstance(store_stmt, ast.Assign) and len(store_stmt.targets) == 1 and isinstance(store_stmt.targets[0], ast.Subscript) and (store_stmt.value is res or store_stmt is not res_stmt):
+        tgt = store_stmt.targets[0]
         sigs = u(tgt.value)
         idx = tgt.slice
         iv = idx
         if isinstance(idx, ast.Name):
-            d = reaching_def(fn, idx.id, res_stmt)
+            d = reaching_def(fn, idx.id, store_stmt)
             iv = def_value(d) if d not in (None, PARAM, AMBIGUOUS) else None
-            found = f'{u(res_stmt)} with {idx.id} := {u(iv) if iv is not None else d}'
+            found = f'{found} with {idx.id} := {u(iv) if iv is not None else d}'
         ok_store = isinstance(iv, ast.Subscript) and u(iv.value) == mapname and u(iv.slice) == cf
     rep.add('S1', fi.site(res_stmt), 'each result is stored at the index recorded for the future that produced it (independent of completion order)', ok_store,
             expected=f'sigs[{mapname}[{cf}]] = {cf}.result()', found=found, stmt='result store')
     rep.require(sigs is not None, f'{FN}: result of a future is not stored by subscript ({found})')
     # pre-sized, no positional collection in this branch
     sdefs = assigns_to(fn, sigs)
-    exec_branch_defs = [s for s in sdefs if block_path(fn, s)[-1][0] is block_path(fn, [o for (_, _, o) in bp if isinstance(o, ast.With)][0] if any(isinstance(o, ast.With) for (_, _, o) in bp) else sub_loop)[-1][0]]
     pres = [s for s in sdefs if isinstance(def_value(s), ast.BinOp) and isinstance(def_value(s).op, ast.Mult)]
     okp = False
     for s in pres:
@@ -138,6 +195,7 @@ def core(ctx):
         l, r = v.left, v.right
         if isinstance(r, ast.List):
             l, r = r, l
+        r = unfold(fn, r, s)
         okp = okp or (isinstance(l, ast.List) and len(l.elts) == 1 and is_none(l.elts[0]) and u(r) == f'len({files})')
     rep.add('S1', fi.site(pres[0] if pres else res_stmt), 'the result list is pre-sized with one slot per file', okp, expected=f'[None] * len({files})',
             found=[u(s) for s in sdefs], stmt='presize')
@@ -150,12 +208,30 @@ def core(ctx):
     # ------------------------------------------------------------------ S3: sequential branch
     seq_calls = [c for c in calls_in(fn) if m.resolve_call(fi, c) == 'gambit.sigs.calc.calc_file_signature']
     rep.floor('S3', 'direct calls of calc_file_signature', len(seq_calls), 1)
+    seq_sites = []       # (statement that builds the sequential list, name of the list)
     for c in seq_calls:
-        st = next(s for s in stmts_in(fn.body) if any(x is c for x in ast.walk(s)) and isinstance(s, (ast.Assign, ast.Expr)))
+        st = next((s for s in stmts_in(fn.body) if any(x is c for x in ast.walk(s)) and isinstance(s, (ast.Assign, ast.Expr, ast.Return, ast.AugAssign, ast.AnnAssign))), None)
+        rep.require(st is not None, f'{FN}: cannot locate the statement of the direct call {u(c)}')
         sbp = block_path(fn, st)
-        loop = next((o for (_, _, o) in reversed(sbp) if isinstance(o, ast.For)), None)
-        rep.require(loop is not None and isinstance(loop.target, ast.Name), f'{FN}: sequential call outside a simple for loop')
-        src = loop.iter
+        # one call per file, in order: the body of a `for` statement that appends, or the element of a list comprehension
+        comp = pm.get(c)
+        inner = comp
+        while inner is not None and not isinstance(inner, (ast.stmt, ast.Lambda, ast.GeneratorExp, ast.ListComp, ast.SetComp, ast.DictComp)):
+            inner = pm.get(inner)
+        if inner is st and not any(isinstance(o, (ast.For, ast.While)) for (_, _, o) in sbp):
+            # evaluated once, for one file, outside any iteration: a special-cased input, not the per-file pass
+            rep.add('S3', fi.site(st), 'sequential branch appends the single-file result of each file, in the order of files', False,
+                    expected=f'for file in {files}: sigs.append(calc_file_signature({kspec}, file))', found=u(st)[:100], stmt='sequential append')
+            continue
+        if isinstance(comp, ast.ListComp) and comp.elt is c:
+            rep.require(len(comp.generators) == 1 and not comp.generators[0].is_async and isinstance(comp.generators[0].target, ast.Name),
+                        f'{FN}: sequential comprehension with several generators / a structured target')
+            loop, src, var = None, comp.generators[0].iter, comp.generators[0].target.id
+        else:
+            comp = None
+            loop = next((o for (_, _, o) in reversed(sbp) if isinstance(o, ast.For)), None)
+            rep.require(loop is not None and isinstance(loop.target, ast.Name), f'{FN}: sequential call outside a simple for loop / list comprehension')
+            src, var = loop.iter, loop.target.id
         src_ok = u(src) == files
         if isinstance(src, ast.Name) and not src_ok:
             # `with iter_progress(files, progress) as file_itr`
@@ -164,8 +240,17 @@ def core(ctx):
                 item = next(i for i in w.items if i.optional_vars is not None and u(i.optional_vars) == src.id)
                 ce = item.context_expr
                 src_ok = isinstance(ce, ast.Call) and m.resolve_call(fi, ce) in ORDER_PRESERVING_ITER and ce.args and u(ce.args[0]) == files
+        if comp is not None:
+            bound = isinstance(st, ast.Assign) and st.value is comp and len(st.targets) == 1 and isinstance(st.targets[0], ast.Name)
+            ok = src_ok and bound and not comp.generators[0].ifs and [u(a) for a in c.args] == [kspec, var] and not c.keywords
+            rep.add('S3', fi.site(st), 'sequential branch appends the single-file result of each file, in the order of files', ok,
+                    expected=f'[calc_file_signature({kspec}, file) for file in {files}]', found=u(st), stmt='sequential append')
+            rep.add('S3', fi.site(st), 'the sequential result list starts empty', bound, expected='a fresh list built by the comprehension', found=u(st)[:80], stmt='sequential init')
+            if bound:
+                seq_sites.append((st, st.targets[0].id))
+            continue
         app = isinstance(st, ast.Expr) and isinstance(st.value, ast.Call) and callee_attr(st.value) == 'append' and st.value.args and st.value.args[0] is c
-        ok = src_ok and app and [u(a) for a in c.args] == [kspec, loop.target.id] and st in loop.body
+        ok = src_ok and app and [u(a) for a in c.args] == [kspec, var] and not c.keywords and st in loop.body
         rep.add('S3', fi.site(st), 'sequential branch appends the single-file result of each file, in the order of files', ok,
                 expected=f'for file in {files}: sigs.append(calc_file_signature({kspec}, file))', found=f'for {u(loop.target)} in {u(src)}: {u(st)}', stmt='sequential append')
         if app:
@@ -174,30 +259,42 @@ def core(ctx):
             v = def_value(d) if d not in (None, PARAM, AMBIGUOUS) else None
             rep.add('S3', fi.site(st), 'the sequential result list starts empty', isinstance(v, ast.List) and not v.elts, expected='[]', found=u(v) if v is not None else str(d),
                     stmt='sequential init')
+            seq_sites.append((loop, lst))
 
-    # ------------------------------------------------------------------ S5: executor lifetime
+    # ------------------------------------------------------------------ S5: executor lifetime, decided per path
+    # On every path that reaches the submissions: which object receives .submit, and is it among the context managers that
+    # are open there?  An executor created on that path must be (it is shut down by the with); the caller's must not be.
     exn = 'executor'
-    ctx_stores = [s for s in stmts_in(fn.body) if isinstance(s, ast.Assign) and len(s.targets) == 1 and isinstance(s.targets[0], ast.Name)
-                  and (u(s.value) == exn or (isinstance(s.value, ast.Call) and (m.resolve_call(fi, s.value) or '').endswith('nullcontext')))]
-    ctxnames = {s.targets[0].id for s in ctx_stores}
-    rep.require(len(ctxnames) == 1, f'{FN}: cannot identify the executor context variable ({ctxnames})')
-    cname = ctxnames.pop()
-    for s in ctx_stores:
-        at = path_atoms(gm[s])
-        if u(s.value) == exn:
-            rep.add('S5', fi.site(s), 'only an executor created here becomes the with-context (and is shut down)', ('is', 'None', exn) in at,
-                    expected=f'under `{exn} is None`', found=sorted(at), stmt='own executor context')
+    paths = sym_paths(fn)
+    n_own = n_foreign = 0
+    ctors = {}
+    for p in paths:
+        ev = p.event_of(sub_scope)
+        if ev is None:
+            continue
+        recv = subst(sub.func.value, ev.env)
+        rep.require(isinstance(recv, ast.Name) and not is_unknown(recv), f'{FN}: cannot follow the object that receives .submit ({u(recv)})')
+        items = [(w, x) for w in ev.withs for x in p.event_of(w, 'enter').expr]
+        at = p.atoms()
+        held = [w for (w, x) in items if u(x) == recv.id]
+        if recv.id in p.defs:
+            n_own += 1
+            rep.add('S5', fi.site(held[0] if held else sub_scope), 'only an executor created here becomes the with-context (and is shut down)', bool(held),
+                    expected=f'with <the executor created under {sorted(a for a in at if "concurrency" in a[1:] and a[0] == "eq")}>', found=[u(x) for _, x in items], stmt='own executor context')
+            ctor = p.defs[recv.id]
+            rep.require(isinstance(ctor, ast.Call) and isinstance(ctor.func, (ast.Name, ast.Attribute)) and not is_unknown(ctor),
+                        f'{FN}: the executor is created by a construct outside the vocabulary (a direct call of the executor class is interpreted): {u(ctor)[:80]}')
+            mode = next((a[2] if a[1] == 'concurrency' else a[1] for a in at if a[0] == 'eq' and 'concurrency' in a[1:]), None)
+            ctors.setdefault(mode, []).append((p.defs[recv.id], next(e.stmt for e in p.events if e.kind == 'def' and e.sym == recv.id), ('is', 'None', exn) in at))
         else:
-            rep.add('S5', fi.site(s), 'a caller-supplied executor is wrapped in nullcontext() (left open)', ('isnot', 'None', exn) in at,
-                    expected=f'under `{exn} is not None`', found=sorted(at), stmt='foreign executor context')
-    rep.floor('S5', 'executor-context assignments', len(ctx_stores), 2)
-    used = with_owner is not None and any(u(i.context_expr) == cname for i in with_owner.items)
-    rep.add('S5', fi.site(with_owner if with_owner is not None else sub_loop), 'submission and completion run inside `with <executor context>`', used,
-            expected=f'with {cname}', found=[u(i.context_expr) for i in with_owner.items] if with_owner is not None else None, stmt='with context')
-    bad_ctx = with_owner is not None and any(u(i.context_expr) == exn for i in with_owner.items)
-    rep.add('S5', fi.site(with_owner if with_owner is not None else sub_loop), 'the raw executor is never used as the with-context directly', not bad_ctx,
-            expected='no `with executor`', found=bad_ctx, stmt='raw executor context')
-    both_in_with = with_owner is not None and any(x is cloop for x in ast.walk(with_owner)) and any(x is sub_loop for x in ast.walk(with_owner))
+            rep.require(recv.id == exn, f'{FN}: .submit is called on {recv.id}, which is neither the executor parameter nor an executor created here')
+            rep.require(('isnot', 'None', exn) in at, f'{FN}: the concurrent branch is reachable with executor None ({sorted(at)})')
+            n_foreign += 1
+            rep.add('S5', fi.site(held[0] if held else sub_scope), 'a caller-supplied executor is never the with-context (left open for the caller)', not held,
+                    expected=f'no `with {exn}` under `{exn} is not None`', found=[u(x) for _, x in items], stmt='foreign executor context')
+    rep.floor('S5', 'paths that submit to an executor created here', n_own, 1)
+    rep.floor('S5', 'paths that submit to the caller\'s executor', n_foreign, 1)
+    both_in_with = with_owner is not None and any(x is cloop for x in ast.walk(with_owner)) and any(x is sub_scope for x in ast.walk(with_owner))
     rep.add('S5', fi.site(cloop), 'results are collected before the executor context exits', both_in_with, expected='completion loop inside the with', found=both_in_with,
             stmt='collection inside with')
     raises = [s for s in stmts_in(fn.body) if isinstance(s, ast.Raise)]
@@ -205,28 +302,44 @@ def core(ctx):
     rep.add('S5', fi.site(raises[0] if raises else fn), 'an unknown concurrency mode raises instead of silently running sequentially', okr,
             expected="raise ValueError under concurrency not in {'threads','processes',None}", found=[(raised_name(r), sorted(path_atoms(gm[r]))) for r in raises],
             stmt='unknown concurrency')
-    ctors = {}
-    for s in stmts_in(fn.body):
-        if isinstance(s, ast.Assign) and u(s.targets[0]) == exn and isinstance(s.value, ast.Call):
-            at = path_atoms(gm[s])
-            mode = next((a[2] if a[1] == 'concurrency' else a[1] for a in at if a[0] == 'eq' and 'concurrency' in a), None)
-            ctors[mode] = (m.resolve_call(fi, s.value) or callee(s.value), s)
     want = {"'threads'": 'ThreadPoolExecutor', "'processes'": 'ProcessPoolExecutor'}
     for mode, cls in want.items():
-        got = ctors.get(mode, (None, None))
-        mw = get_arg(got[1].value, 0, 'max_workers') if got[1] is not None else None
-        rep.add('S5', fi.site(got[1]) if got[1] is not None else fi.site(), f'concurrency={mode} builds a {cls} with the requested worker count',
-                (got[0] or '').endswith(cls) and u(mw) == 'max_workers', expected=f'{cls}(max_workers=max_workers)', found=u(got[1].value) if got[1] is not None else None,
-                stmt=f'executor[{mode}]')
+        got = ctors.get(mode, [])
+        good = bool(got) and all(isinstance(c, ast.Call) and (m.resolve_call(fi, c) or callee(c) or '').endswith(cls) and u(get_arg(c, 0, 'max_workers')) == 'max_workers' and fresh for (c, _, fresh) in got)
+        rep.add('S5', fi.site(got[0][1]) if got else fi.site(), f'concurrency={mode} builds a {cls} with the requested worker count (only when the caller gave no executor)',
+                good, expected=f'{cls}(max_workers=max_workers)', found=[u(c) for (c, _, _) in got] or None, stmt=f'executor[{mode}]')
+    stray = {k: [u(c) for (c, _, _) in v] for k, v in ctors.items() if k not in want}
+    rep.add('S5', fi.site(), 'executors are created for the two documented concurrency modes only', not stray, expected='none', found=stray, stmt='executor[other]')
 
-    # ------------------------------------------------------------------ S6
-    last = fn.body[-1]
-    ok = isinstance(last, ast.Return) and isinstance(last.value, ast.Call) and m.resolve_call(fi, last.value) == 'gambit.sigs.base.SignatureList' \
-        and [u(a) for a in last.value.args[:2]] == [sigs, kspec]
-    rep.add('S6', fi.site(last), 'the result is the list of signatures in slot order, with the k-mer parameters', ok, expected=f'SignatureList({sigs}, {kspec})',
-            found=u(last)[:80], stmt='result')
-    early = [s for s in stmts_in(fn.body) if isinstance(s, ast.Return) and s is not last]
-    rep.add('S6', fi.site(), 'no other return path', not early, expected='none', found=[u(e) for e in early], stmt='returns')
+    # ------------------------------------------------------------------ S6: what is returned, per path
+    MUT = ('sort', 'reverse', 'append', 'insert', 'extend', 'pop', 'remove', 'clear')
+    rets = returning(paths)
+    ended = []
+    for p in rets:
+        if not any(p.end[1] is x for x in ended):
+            ended.append(p.end[1])
+        v = p.resolve(p.end[2])
+        filled = None            # the list this path filled, as a value
+        ev_c = p.event_of(cloop, 'loop')
+        if ev_c is not None:
+            filled, after = subst(ast.Name(id=sigs, ctx=ast.Load()), ev_c.env), ev_c
+        for (st, lst) in seq_sites:
+            e = p.event_of(st)
+            if e is not None and filled is None:
+                filled, after = (ast.Name(id=e.sym, ctx=ast.Load()) if e.kind == 'def' else subst(ast.Name(id=lst, ctx=ast.Load()), e.env)), e
+        ok = isinstance(v, ast.Call) and m.resolve_call(fi, v) == 'gambit.sigs.base.SignatureList' and len(v.args) >= 2 and filled is not None and isinstance(filled, ast.Name) \
+            and not is_unknown(filled) and u(v.args[0]) == filled.id and u(v.args[1]) == kspec
+        later = []
+        if ok:
+            for e in p.events[p.events.index(after) + 1:]:
+                if e.kind == 'call' and isinstance(e.expr, ast.Call) and isinstance(e.expr.func, ast.Attribute) and u(e.expr.func.value) == filled.id and e.expr.func.attr in MUT:
+                    later.append(u(e.expr))
+                if e.kind == 'store' and filled.id in {x.id for x in ast.walk(e.target) if isinstance(x, ast.Name)}:
+                    later.append(u(e.stmt))
+        rep.add('S6', fi.site(p.end[1]), 'the result is the list of signatures in slot order, with the k-mer parameters', ok and not later, expected=f'SignatureList(<the list filled on this path>, {kspec})',
+                found=(u(v)[:80] if v is not None else None) if not later else f'{u(v)[:60]} after {later}', stmt='result')
+    early = [s for s in stmts_in(fn.body) if isinstance(s, ast.Return) and not any(s is x for x in ended)]
+    rep.add('S6', fi.site(early[0] if early else None), 'no other return path', not early and bool(rets), expected='none', found=[u(e) for e in early], stmt='returns')
     sl = m.func('gambit.sigs.base.SignatureList.__init__')
     rep.functions.add(sl.qualname)
     lst = [s for s in sl.node.body if isinstance(s, ast.Assign) and u(s.targets[0]) == 'self._list']
@@ -237,6 +350,16 @@ def core(ctx):
 from ..variants import V  # noqa: E402
 
 _C = 'src/gambit/sigs/calc.py'
+_SUBMIT_OLD = ("\t\tfuture_to_index = dict()\n\n\t\twith executor_context, get_progress(progress, len(files)) as meter:\n\t\t\tfor i, file in enumerate(files):\n"
+               "\t\t\t\tfuture = executor.submit(calc_file_signature, kspec, file)\n\t\t\t\tfuture_to_index[future] = i\n")
+_SUBMIT_DC = ("\t\twith executor_context, get_progress(progress, len(files)) as meter:\n\t\t\tfuture_to_index = {\n\t\t\t\texecutor.submit(calc_file_signature, kspec, %s): %s\n"
+              "\t\t\t\tfor i, file in %s%s\n\t\t\t}\n")
+_SEQ_OLD = "\t\tsigs = []\n\n\t\twith iter_progress(files, progress) as file_itr:\n\t\t\tfor file in file_itr:\n\t\t\t\tsigs.append(calc_file_signature(kspec, file))\n"
+_SEQ_LC = "\t\twith iter_progress(files, progress) as file_itr:\n\t\t\tsigs = [calc_file_signature(kspec, file) for file in %s]\n"
+_BODY_OLD = (_SEQ_OLD + "\n\telse:\n\t\tsigs = [None] * len(files)\n" + _SUBMIT_OLD + "\n\t\t\tfor future in as_completed(future_to_index):\n\t\t\t\ti = future_to_index[future]\n"
+             "\t\t\t\tsigs[i] = future.result()\n\t\t\t\tmeter.increment()\n\n\t\tassert all(sig is not None for sig in sigs)\n")
+_BODY_GUARD = (_SEQ_OLD + "\n\t\treturn SignatureList(%s, kspec)\n\n\tsigs = [None] * len(files)\n" + _SUBMIT_OLD.replace("\n\t\t", "\n\t").replace("\t\tfuture_to_index = dict()", "\tfuture_to_index = dict()")
+               + "\n\t\tfor future in as_completed(future_to_index):\n\t\t\ti = future_to_index[future]\n\t\t\tsigs[i] = future.result()\n\t\t\tmeter.increment()\n\n\tassert all(sig is not None for sig in sigs)\n")
 VARIANTS = [
     V('collect in completion order', 'B', _C, "\t\t\t\ti = future_to_index[future]\n\t\t\t\tsigs[i] = future.result()\n", "\t\t\t\tsigs.append(future.result())\n", 'S1',
       also=[(_C, "\t\tsigs = [None] * len(files)\n", "\t\tsigs = []\n")]),
@@ -253,6 +376,30 @@ VARIANTS = [
     V('unknown concurrency silently sequential', 'B', _C, "\t\telif concurrency is not None:\n\t\t\traise ValueError(f'concurrency should be one of [None, \"threads\", \"processes\"], got {concurrency!r}')\n", "", 'S5'),
     V('map store under a condition', 'B', _C, "\t\t\t\tfuture_to_index[future] = i\n", "\t\t\t\tif i % 2 == 0:\n\t\t\t\t\tfuture_to_index[future] = i\n", 'S1'),
     V('wait only on first half', 'B', _C, "for future in as_completed(future_to_index):", "for future in as_completed(list(future_to_index)[:1]):", 'S2'),
+    # ---- idioms accepted by meaning, each with its broken twin
+    # a comprehension instead of a loop that stores
+    V('E: future->index map built by a dict comprehension', 'E', _C, _SUBMIT_OLD, _SUBMIT_DC % ('file', 'i', 'enumerate(files)', '')),
+    V('twin: dict comprehension records a mirrored index', 'B', _C, _SUBMIT_OLD, _SUBMIT_DC % ('file', 'len(files) - 1 - i', 'enumerate(files)', ''), 'S1'),
+    V('twin: dict comprehension submits in sorted order but keeps the running index', 'B', _C, _SUBMIT_OLD, _SUBMIT_DC % ('file', 'i', 'enumerate(sorted(files))', ''), 'S1'),
+    V('twin: dict comprehension skips some files', 'B', _C, _SUBMIT_OLD, _SUBMIT_DC % ('file', 'i', 'enumerate(files)', ' if file.path.exists()'), 'S1'),
+    V('twin: dict comprehension hands every worker the first file', 'B', _C, _SUBMIT_OLD, _SUBMIT_DC % ('files[0]', 'i', 'enumerate(files)', ''), 'S4'),
+    V('E: sequential branch as a list comprehension', 'E', _C, _SEQ_OLD, _SEQ_LC % 'file_itr'),
+    V('twin: sequential comprehension over the files in sorted order', 'B', _C, _SEQ_OLD, _SEQ_LC % 'sorted(file_itr)', 'S3'),
+    V('twin: sequential comprehension that filters', 'B', _C, _SEQ_OLD, _SEQ_LC % 'file_itr if file.path.exists()', 'S3'),
+    # a value bound to a local first
+    V('E: number of files bound to a local first', 'E', _C, "\t\tsigs = [None] * len(files)\n", "\t\tnfiles = len(files)\n\t\tsigs = [None] * nfiles\n"),
+    V('twin: local holds one slot too few', 'B', _C, "\t\tsigs = [None] * len(files)\n", "\t\tnfiles = len(files) - 1\n\t\tsigs = [None] * nfiles\n", 'S1'),
+    # guard clause with early return instead of if/else
+    V('E: sequential branch as a guard clause with early return', 'E', _C, _BODY_OLD, _BODY_GUARD % 'sigs'),
+    V('twin: guard clause returns the sequential list re-ordered', 'B', _C, _BODY_OLD, _BODY_GUARD % 'sorted(sigs, key=len)', 'S6'),
+    # the context chosen by a conditional expression over a flag instead of a second local assigned in both arms
+    V('E: executor context chosen by a conditional expression over an ownership flag', 'E', _C, "\t\texecutor_context = executor\n\n\telse:\n\t\texecutor_context = nullcontext()\n", "\t\town = True\n\n\telse:\n\t\town = False\n",
+      also=[(_C, "\t\twith executor_context, get_progress", "\t\twith (executor if own else nullcontext()), get_progress")]),
+    V('twin: ownership flag inverted (caller executor shut down, own executor leaked)', 'B', _C, "\t\texecutor_context = executor\n\n\telse:\n\t\texecutor_context = nullcontext()\n", "\t\town = False\n\n\telse:\n\t\town = True\n", 'S5',
+      also=[(_C, "\t\twith executor_context, get_progress", "\t\twith (executor if own else nullcontext()), get_progress")]),
+    V('E: result bound to a local before it is stored', 'E', _C, "\t\t\t\tsigs[i] = future.result()\n", "\t\t\t\tsig = future.result()\n\t\t\t\tsigs[i] = sig\n"),
+    V('twin: result local stored at the completion count', 'B', _C, "\t\t\t\ti = future_to_index[future]\n\t\t\t\tsigs[i] = future.result()\n", "\t\t\t\tsig = future.result()\n\t\t\t\ti = meter.n\n\t\t\t\tsigs[i] = sig\n", 'S1'),
+    V('twin: result local stored only when truthy', 'B', _C, "\t\t\t\tsigs[i] = future.result()\n", "\t\t\t\tsig = future.result()\n\t\t\t\tif len(sig):\n\t\t\t\t\tsigs[i] = sig\n", 'S2'),
     V('E: rename the map', 'E', _C, "future_to_index", "pending", count=4),
     V('E: store through a differently named local', 'E', _C, "\t\t\t\ti = future_to_index[future]\n\t\t\t\tsigs[i] = future.result()\n", "\t\t\t\tslot = future_to_index[future]\n\t\t\t\tsigs[slot] = future.result()\n"),
     V('E: inline subscript', 'E', _C, "\t\t\t\ti = future_to_index[future]\n\t\t\t\tsigs[i] = future.result()\n", "\t\t\t\tsigs[future_to_index[future]] = future.result()\n"),
